@@ -11,6 +11,9 @@ import itertools
 import os
 import re
 
+import c15bat
+import c15gen
+import c15jb
 import common
 from common import BuildError, REPO, cxx_build, drv, first_diff, gen_write, log, sh
 
@@ -86,7 +89,20 @@ def gen(ck):
     c["bufferPopMode"] = mode
     ck.extra["generated_constants"] = c
     body = "".join("def %s : Nat := %d\n" % (k, v) for k, v in c.items())
-    gen_write("C15", body)
+    gtxt, gobl, gvals = c15gen.generate(REPO)
+    ck.extra["generated_skeleton"] = gvals
+    gen_write("C15", body + gtxt)
+    for name, ok, detail in gobl:
+        ck.oblige(name, "generated", ok, detail)
+    sk_ok = (gvals.get("tfRegSucc") == 1 and gvals.get("tfRelRes") == 1 and gvals.get("tfConRes") == 1 and gvals.get("tfPutItem") in (1, 3)
+             and all(gvals.get(k) != 2 for k in ("tfRemSucc", "tfReqItem", "tfResItem", "tfTryFwd")))
+    sk_total = (gvals.get("tfRegSucc") == 1 and gvals.get("tfRelRes") == 1 and gvals.get("tfConRes") == 1 and gvals.get("tfPutItem") in (1, 2, 3)
+                and all(gvals.get(k) != 2 for k in ("tfRemSucc", "tfReqItem", "tfResItem", "tfTryFwd")))
+    ck.oblige("gen:handle_operations switch keeps every forwarding request for nodes whose push cannot fail (Skel.generated.okTotalPush: hypothesis of "
+              "forwarder_task_no_loss for buffer/queue/priority_queue nodes)", "generated", sk_total, gvals)
+    ck.oblige("gen:handle_operations switch never withdraws a forwarding request (Skel.generated.ok: hypothesis of forwarder_task_no_loss for "
+              "sequencer_node)", "generated", sk_ok, "case put_item ASSIGNS try_forwarding = internal_push(tmp): a rejected put withdraws the request of an "
+              "accepted put / reg_succ / rel_res / con_res handled earlier in the same batch" if not sk_ok else gvals)
     ibs = c.get("initialBufferSize", 0)
     ck.oblige("gen:initialBufferSize is a power of two", "generated", ibs > 0 and ibs & (ibs - 1) == 0, c)
     ok = ck.oblige("gen:buffer_node try_get respects a reservation (bufferPopMode >= 1)", "generated", mode >= 1,
@@ -989,15 +1005,30 @@ def run(ck):
                "deltas in {1,2,3,0,-1,-2,7,9}, two puts in flight at once (put2: a second thread is admitted while the first put is "
                "between admission and completion) plus well-formed decrement scripts for the ghost monitor; all short op scripts "
                "(length <= 4 quick / <= 5-7 thorough) for buffer/queue/sequencer, queueing join, queue->limiter, overwrite/write_once; join arrivals at random ports, key "
-               "multisets from 6 keys with duplicates, pulls by try_get; multi-threaded runs with 2-4 external threads. distinct = distinct "
+               "multisets from 6 keys with duplicates, pulls by try_get; multi-threaded runs with 2-4 external threads. "
+               "AGGREGATOR BATCHES (extension a/b): scripts of forced batches of 1-5 operations in a chosen ARRIVAL order (all eight op kinds of buffer/queue/"
+               "sequencer/priority_queue nodes incl. a held forwarder's try_fwd_task, through white-box execute and through the public API; the four "
+               "base-node op kinds of join_node over queueing / key_matching / reserving front ends with 2 and 3 ports), successor verdict scripts over "
+               "{accept, refuse-and-stay, refuse-and-switch-to-pull}, head/tail shifted across 2^16, 2^31, 2^32, 2^40 (sequence numbers > 2^32), "
+               "every ordered pair of op kinds as one batch from three start states x three verdicts (sampled in quick, all in thorough); the "
+               "distribution actually run is in extra.batch_distribution / extra.join_batch_distribution. distinct = distinct "
                "(model, operation, result class) triples")
     ck.assumptions += [
         "modelled: item_buffer ring exactly (slot states, grow re-hash, place_item); handle_operations cases of buffer/queue/sequencer/"
         "priority_queue nodes as atomic steps incl. order()/heapify/reheap and the forwarding task loop; limiter_node's three locked regions "
         "of a put / forward task and decrement_counter; queueing / reserving / key_matching join front ends and ports; overwrite/write_once; "
         "broadcast/split/indexer as their routing functions",
-        "atomicity of one node operation (aggregator handler / mutex) is assumed here (the aggregator protocol itself belongs to C13/C14); "
-        "multi-threaded behaviour is additionally sampled by monitors only",
+        "aggregator-based nodes (buffer/queue/sequencer/priority_queue, join_node_base): modelled per BATCH as coded (Batch.handleOps / Join.handleOps: list "
+        "order = reversed arrival, try_forwarding switch regenerated from the source, order(), forwarder_busy, the offer loop, round-robin / broadcast "
+        "cache with pull-mode flips); the single hypothesis about the aggregator is its serialisation (serial handlers, every operation in exactly one "
+        "batch, batch = pending stack) — proved for the same _aggregator.h code in C13 (aggregator_serial_exactly_once) and exercised here with real "
+        "threads through the real aggregator; limiter / overwrite / write_once: atomicity of the locked regions assumed (mutex), sampled by monitors",
+        "join_node: port operations (queueing_port / key_matching_port / reserving_port aggregators) are atomic steps between base-node batches; the "
+        "interleaving of a port put with the inside of tuple_accepted (reset_port_count / reset_ports) is not refined below that granularity; "
+        "reserving ports have one scripted predecessor each; tie for 2 and 3 ports (theorems for every n)",
+        "sequence numbers: the theorem covers numbers < 2^62 in the code's 64-bit arithmetic (regenerated expressions); at 2^64-1 `tag+1` wraps and "
+        "grow_my_array's doubling loop cannot terminate above 2^63 (not reachable with real memory)",
+        "is_graph_active() is taken as true; reset()/cancellation of the graph are not modelled",
         "priority_queue_node: inside ONE aggregator batch a pop is compared only with the heap part and the last pushed element "
         "(prio_emits_max states exactly that; maximal over everything only at batch boundaries) — concurrent pushes of the same batch",
         "limiter theorem is on the ghost counter (forwarded minus applied positive decrements); my_count itself can exceed the threshold when a "
@@ -1011,6 +1042,9 @@ def run(ck):
         "reserved_front_stable apply to buffer_node only for mode >= 1; the failing input is replayed under key " + KEY_STEAL]
     ck.trusted += ["harness/c15/*.cpp (scripted successors/senders, white-box dumps via -fno-access-control)", "checks/c15.py monitors + script "
                    "generators", "Driver/C15.lean composites (forwarding-task loops around the proved atomic steps)",
+                   "checks/c15gen.py (regex extraction of the handle_operations switch and of the index expressions; cexpr translation)",
+                   "harness/c15/batch.cpp, joinbatch.cpp (white-box forcing of batches via handler_busy; held forwarder emulation; scripted verdicts)",
+                   "Driver/C15Batch.lean (drain loops around the proved Batch.handleOps / Join.handleOps; task bookkeeping of port events)",
                    "correspondence is sampled (differential), not proved"]
     exe_nodes()
     mode = gen(ck)
@@ -1043,6 +1077,12 @@ def run(ck):
     for m, lab in (("c15buf", "buffer/queue/sequencer nodes"), ("c15jq", "join_node queueing"), ("c15lq", "queue_node->limiter_node"),
                    ("c15ow", "overwrite/write_once nodes")):
         stage_model(ck, m, exhaustive_scripts(m, mode, ml), lab + ", all short scripts", mode)
+    bat_keys = c15bat.stage(ck, libs) or set()
+    if c15bat.KEY_SEQ_LOST in bat_keys or any(c["key"] == c15bat.KEY_SEQ_LOST for c in ck.counterexamples):
+        for o in ck.obligations:
+            if not o["ok"] and o["name"].startswith("gen:handle_operations switch never withdraws"):
+                o["explained"] = True
+    c15jb.stage(ck, libs)
     run_mt(ck)
     # the generated obligation about buffer_node is explained by the (known) finding iff its replay was produced
     if mode == 0:
@@ -1090,6 +1130,12 @@ MONITORS["c15lim"] = _mon_lim
 
 def replay(ck, obj):
     r = obj["replay"]
+    if r.get("model") == "c15bat":
+        libs, _ = tbb_libs()
+        return c15bat.replay(ck, r, libs)
+    if r.get("model") == "c15jb":
+        libs, _ = tbb_libs()
+        return c15jb.replay(ck, r, libs)
     if r.get("engine") == "E-REAL":
         libs, _ = tbb_libs()
         exe = cxx_build("C15", "mt", ["harness/c15/mt.cpp"], flags=["-O1", "-g", "-pthread"], libs=libs)
@@ -1102,6 +1148,12 @@ def replay(ck, obj):
         print("replay %s: %d runs without a violation" % (obj.get("key"), int(r.get("repeat", 50))))
         return 0
     model, script = r["model"], r["script"]
+    if model == "c15bat":
+        libs, _ = tbb_libs()
+        return c15bat.replay(ck, r, libs)
+    if model == "c15jb":
+        libs, _ = tbb_libs()
+        return c15jb.replay(ck, r, libs)
     rc, o, err = run_impl(model, "\n".join(script) + "\n", noguard=bool(r.get("noguard")))
     print("replay of %s on %s (%s)" % (obj.get("key"), REPO, model))
     for l, x in zip(script, o):
